@@ -37,6 +37,12 @@ for diff in sorted(glob.glob(f"{wt}/seeds/variant*.diff")):
                 lines = [l for l in out.splitlines() if l.startswith(("VIOLATION", "ANALYSIS-ERROR")) ]
                 first = next((l for l in out.splitlines() if l.startswith(p + ".R")), "")
                 res[p] = (rc, first[:200] if rc == 1 else (lines[0][:200] if lines else ""))
+            if all(v[0] != 1 for v in res.values()):
+                rc, out = sh("./check all --tier quick", cwd="/verif")
+                others = sorted({l.split("property=")[1].split()[0] for l in out.splitlines() if l.startswith("VIOLATION")})
+                errs = sorted({l.split("property=")[1].split()[0] for l in out.splitlines() if l.startswith("ANALYSIS-ERROR")})
+                res["_other_properties_reporting"] = others
+                res["_analysis_errors_in"] = errs
         finally:
             sh("git checkout -- .", cwd="/repo")
     rows.append((k, "confirmed" if confirmed else f"NOT confirmed (clean demo rc={rc0}, seeded demo rc={rc1}, tests: {ot.strip()})", res, meta.get("summary", ""), meta.get("needs", "")))
